@@ -53,6 +53,21 @@ func (w *World) modelOnly(op Op) {
 		nm.First, nm.Latest, nm.Cur = op.Ver, op.Ver, op.Ver
 		nm.Work, nm.WorkC = root, conts.clone()
 		w.M = nm
+	case OpSaveCS:
+		okAll := true
+		for _, p := range op.CS {
+			if p.Del {
+				if _, ok := m.Remove(p.K); !ok {
+					okAll = false
+					break
+				}
+			} else {
+				m.Set(p.K, p.V)
+			}
+		}
+		if okAll {
+			m.SaveVersion()
+		}
 	case OpExportOpen:
 		m.Pins[op.Ver]++
 	case OpExportClose:
